@@ -150,8 +150,19 @@ def discover(refresh: bool = False) -> list[type]:
     return _DISCOVERED
 
 
+def implements(c: type, proto) -> bool:
+    """`issubclass(c, proto)`; runtime protocols with data members refuse `issubclass` (TypeError): then compare the
+    method members structurally, so that the translator still produces a table and the real round trips can judge"""
+    try:
+        return issubclass(c, proto)
+    except TypeError:
+        members = getattr(proto, "__protocol_attrs__", None) or set()
+        methods = [a for a in members if callable(getattr(proto, a, None))]
+        return bool(methods) and all(callable(getattr(c, a, None)) for a in methods)
+
+
 def protos_of(c: type) -> list[str]:
-    out = [k for k, p in PROTOCOLS.items() if issubclass(c, p)]
+    out = [k for k, p in PROTOCOLS.items() if implements(c, p)]
     if issubclass(c, MoveStorage):
         out.append("storage")
     if issubclass(c, Driver):
